@@ -12,7 +12,7 @@ from common import qlit, natlit, zlit, blit, lst, tup, opt, coq_bad_indices, par
 
 PROP = "C03"
 PROPERTY_FILE = "Properties/C03.v"
-GEN_DEPS = ["GenC01Trunc", "GenC04Triplet"]
+GEN_DEPS = ["GenC01Trunc", "GenC04Triplet", "GenTieChain", "GenTieCoupling"]
 RULE = ("cases: CouplingMarkovChain(StepModel in 4 representations x variation flag, dyadic grids with 1..5 states per side) driven "
         "through initialisation / pre_computation / next_level for 1..4 levels; at every level every fine increment: "
         "probability_to_right_jump (relative 2^-48), coupling_state at uniforms on both sides of the threshold and at random ones "
@@ -26,6 +26,9 @@ RULE = ("cases: CouplingMarkovChain(StepModel in 4 representations x variation f
         "(levels 1-2) and the copula CouplingLevyCopulaSimulationWithJumpTimes / MaximumStep (equal and unequal axes) simulated end to end; "
         "on every path: the coarse component moves only when the fine one does, by the same state (even coordinate) or a neighbour on its own "
         "axis (odd), and the two diffusion parts are the same Brownian increments times the two coefficients / matrices (1e-9).  "
+        "SDE stream: CouplingSDE (StepModel driver, a = Constant / DiagX) at levels 1-3: level bookkeeping oracle; one real coupled driver path per level "
+        "recorded (fine increments + coupling uniforms at coupling_state, times, jump / diffusion rows) and the object's StochasticSDEPath compared with "
+        "the Coq composition coupling_state -> driver steps -> stacked Euler recursion (group sde, 1e-9); Libor model: sde drift at level 2 vs the level-1 process.  "
         "non-trivial = distinct (chain, level, increment) with an odd increment; a simulated path with at least one jump")
 MODELLED = ["CouplingSimulation.probability_to_right_jump / coupling_state / coupling_states_for_a_slice (exact correspondence groups state1d, "
             "prob1d, slice1d), next_level bookkeeping (group levels), CouplingSimulation.simulate_diffusion_with_coupling of the fixed-dates "
@@ -38,7 +41,14 @@ MODELLED = ["CouplingSimulation.probability_to_right_jump / coupling_state / cou
             "Poisson thinning / 'same law' of the coarse path: the probabilistic step from equal rates, drift and diffusion to equal "
             "law is on paper, not formalised; C03_same_generator_1d packages the three equalities (rates, diffusion coefficient, drift) on the "
             "level machine's own state for every level, so the only paper step left is 'equal generator data => equal law'",
-            "couplingsde.py (SDE coupling built on the chain coupling): not modelled (see THEOREM_NOTES)",
+            "couplingsde.py with a 1-d driver (Model/CouplingSde.v): the level machine sde_run (mc_drift_h / mc_drift_2h / driver state / the sde drift "
+            "closure set once at level 0) and simulate_one_path_with_coupling = coupled driver steps (coupling_state of the fine increments, one Brownian "
+            "increment times the two coefficients) fed to C16's stacked Euler recursion ceuler_st; exact-structure correspondence group sde (1e-9) on "
+            "real CouplingSDE objects at levels 1-3 with the real driver path recorded (increments and coupling uniforms at coupling_state). Copula "
+            "driver of the SDE coupling, sqrt(dt) and the normals (fed as data) are not modelled",
+            "TIE (wave 6): CouplingSimulation.probability_to_right_jump / coupling_state and CTMCGrid.middle / left_point / right_point are now REGENERATED "
+            "from the source on every run (Gen/GenTieCoupling.v, Gen/GenTieChain.v, py2coq loop plug-in) and proved equal to the hand model by "
+            "C03_gen_probability_to_right_jump_is_model / C03_gen_coupling_state_is_model / C03_gen_middle_is_model",
             "np.sqrt in the equivalent diffusion coefficient: the model works with squares"]
 ASSUMPTIONS = ["mass a b = fine_process.model.mass, additive and non-negative on intervals NOT containing 0, respects == "
                "(C01_step_mass_is_a_measure for step measures; C09 is not formally composed)",
@@ -73,12 +83,28 @@ THEOREM_NOTES = {
                              "coarse component (coupled inflow on the state's own grid) == q_entry of the level-n chain, c_sig2_coarse = sig2_of(level-n "
                              "grid), frozen drift == drift_of(level-n grid).  Composition of C13 refine_n_grid_wf, C03_telescoping_1d and "
                              "C03_drift_diffusion_frozen.  The n-d analogue is not stated (the code's n-d rates do not telescope: F-C03-1)",
-    "C03_sde": "not proved: couplingsde.py is not modelled here (C16 models its Euler recursion and mc_drift bookkeeping); the composition "
-               "Model/Euler.v x Coupling1d was not attempted in wave 5 (time); observation F-C03-2 is not assessed",
+    "C03_sde": "1-d driver, any level l = n+1, any coefficient a whose stacked call restricts to a on each component (Constant, DiagX, sigma(t)*x), any "
+               "sde-drift constructor b_of, any driver path the driver accepts: the machine's driver state IS run_levels (so C03_same_generator_1d applies "
+               "to the coarse driver's jump rates), mc_drift_2h = driver drift of level n, coarse coefficient^2 = sig2_of(level-n grid), and the coarse rows "
+               "of simulate_one_path_with_coupling = euler a (b_of g) [drift of level n] on the coarse driver steps (C03_sde_driver_step: same t, dt, same "
+               "Brownian increment, copy / adjacent jump). Composition of C16 stacked_rows / coupled_rows with C03_drift_diffusion_frozen. Not covered: "
+               "copula driver; the driver's time grid (jump times + epsilon cap) is an input",
+    "C03_sde_same_scheme": "telescoping of the scheme: coarse component of level n+1, fine component of level n >= 1 and MarkovChainSDE.simulate_one_path at "
+                           "level 0 apply one function (a, b_of g, driver drift of level n) to their driver steps. NOT claimed: equality in law of the "
+                           "solutions - the coarse component is advanced on the level-l time grid (cap (h/2)^beta, all fine jump times) while the fine component "
+                           "of level l-1 was advanced on its own; for a non-constant a (DiagX) the Euler solution depends on the time grid (candidate F-C03-2, "
+                           "still only an observation: C16_constant_a shows independence for Constant)",
+    "C03_sde_libor_drift_not_of_level_refuted": "F-C03-4 (assessment of the C16 observation): MarkovChainLevyLiborModel.sde_drift closes over zz(h) computed at "
+                                                "fine_process.initialisation, which CouplingSDE calls at level 0 only; from level 2 on the coarse component has the "
+                                                "driver drift and coefficient of level l-1 but the sde drift of level 0, not that of the level-(l-1) process built on "
+                                                "the refined grid (vm_compute witness; confirmed on the real objects by _sde_libor_observation). The telescoping sum is "
+                                                "NOT broken (both components of every level use the same stale drift: C03_sde_same_scheme), so the oracle records it as "
+                                                "an observation, not a violation; the defect is the bias of the FINE component of levels >= 1 (C16's subject)",
+    "C03_gen_*_is_model": "restated from Proofs/Tie_Coupling.v / Tie_Chain.v: the hand model returns None exactly where Python raises ZeroDivisionError",
     "expected coarse payoff = expected fine payoff at level l-1": "derived on paper from C03_telescoping_1d + C03_drift_diffusion_frozen + "
                                                                   "C03_same_brownian_increments + Poisson thinning; not formalised",
 }
-LEVEL_TEXT = ("Proof: 23 Coq theorems + 3 examples (closed under the global context). One-dimensional coupling, for every admissible axis, every middle "
+LEVEL_TEXT = ("Proof: 30 Coq theorems + 5 examples (closed under the global context). One-dimensional coupling, for every admissible axis, every middle "
               "function with the stated properties and every additive non-negative mass: after refine the coarse grid is the even "
               "indices and the coarse cells are bounded by the odd states; coupling_state copies even increments and moves odd ones to "
               "an adjacent coarse state; sum over fine states of rate x P(fine -> y) equals the coarse chain's rate of y (states of "
@@ -90,8 +116,13 @@ LEVEL_TEXT = ("Proof: 23 Coq theorems + 3 examples (closed under the global cont
               "masses) the identity is PROVED in general (C03_telescoping_nd_joint: any additive non-negative rectangle mass, any two "
               "admissible axes); the law of coupling_state2 as a function of the coupling uniform is linked to prob_to2 for both rules "
               "(C03_coupling_law_nd_*). Tied to /repo by exact vm_compute correspondence on step-measure chains and density-table copulas; "
-              "jump-time / maximum-step coupled simulators (1-d and copula) driven end to end by an oracle. Partial: dimension >= 3, SDE "
-              "coupling and the probabilistic step 'equal generator data => equal law' are not proved.")
+              "jump-time / maximum-step coupled simulators (1-d and copula) driven end to end by an oracle. SDE coupling (1-d driver): at every level "
+              "the coarse rows of CouplingSDE.simulate_one_path_with_coupling are the Euler scheme with the level-(l-1) driver drift and coefficient on "
+              "the coupled coarse driver steps, the same scheme function as the previous level's fine component (C03_sde, C03_sde_same_scheme), tied on "
+              "real CouplingSDE objects at levels 1-3; the Libor sde drift keeps the level-0 zz (C03_sde_libor_drift_not_of_level_refuted, observation "
+              "F-C03-4). probability_to_right_jump / coupling_state / middle are regenerated from the source and linked to the hand model by theorem "
+              "(C03_gen_*_is_model). Partial: dimension >= 3, the SDE coupling on a copula driver, the time-grid dependence of the coarse SDE solution "
+              "and the probabilistic step 'equal generator data => equal law' are not proved.")
 LEVEL_NOTE = ("Trusted: Coq kernel + vm_compute; py2coq (truncation, triplet conversions); floats modelled as Q (exact on dyadic inputs); "
               "Section hypotheses on mass/mid; uniformity/independence of the coupling uniform (C08).")
 TECHNIQUE = "Coq proof over Q (sum localisation + interval additivity per coordinate, induction on levels) + vm_compute refutation witness + exact vm_compute correspondence"
@@ -242,8 +273,9 @@ def correspond(res):
     _samplers(res, rng, viol)
     _n_d(res, rng, viol, groups)
     _jump_time_simulators(res, rng, viol)
+    _sde(res, rng, viol, groups)
     header = ("From Coq Require Import ZArith QArith Qabs List Bool.\nFrom RV Require Import Base.QB Model.Grid Gen.GenC01Trunc Gen.GenC04Triplet "
-              "Model.Chain Model.Drift Model.Coupling1d Model.CouplingNd.\nOpen Scope Q_scope.\n"
+              "Model.Chain Model.Drift Model.Coupling1d Model.CouplingNd Base.QVec Model.Euler Model.CouplingSde.\nImport ListNotations.\nOpen Scope Q_scope.\n" + SDE_HEADER +
               "Definition oq_eqb (a b : option Q) : bool := match a, b with Some x, Some y => Qeq_bool x y | None, None => true | _, _ => false end.\n"
               "Definition oq_close (a b : option Q) : bool := match a, b with Some x, Some y => Qle_bool (Qabs (x - y)) ((1 + Qabs y) * (1 # 281474976710656)) "
               "| None, None => true | _, _ => false end.\n"
@@ -998,6 +1030,192 @@ def _jump_time_simulators(res, rng, viol):
                         res.bump("jump_time_sim", f"2d {mode} {'equal' if ax0 == ax1 else 'unequal'} axes")
             except Exception as e:  # noqa
                 viol(f"copula coupled {mode} simulation raises {type(e).__name__}", reason=str(e)[:200], **ctx)
+
+# ------------------------------------------------------------------------------------------ SDE coupling (couplingsde.py), levels 1-3
+SDE_HEADER = r"""
+Definition sde_rows_of (m : nat) (path : list (list Q)) : list (list Q) := map (fun k => map (fun v => nth k v 0) path) (seq 0 m).
+Definition sde_mats_eqb (tol : Q) (m : nat) (tms : list (list Q * list Q * list Q)) (e : list (list Q) * list (list Q) * list (list Q)) : bool :=
+  match e with (eD, eW, eJ) =>
+    mat_eqb tol (sde_rows_of m (path_of m (map fst3 tms))) eD && mat_eqb tol (sde_rows_of m (path_of m (map snd3 tms))) eW
+    && mat_eqb tol (sde_rows_of m (path_of m (map thd3 tms))) eJ end.
+Definition sde_event (c : Q * Q * option Z * Q * Q) : devent :=
+  match c with (t, dt, i, u, sw) => {| e_t := t; e_dt := dt; e_inc := i; e_u := u; e_sw := sw |} end.
+Definition sde_case_check (c : option Q * list (Q * Q * Q) * list Q * nat * Q * Q * Q * Q * list (Q * Q * option Z * Q * Q) * Q * Q
+                               * (list (list Q) * list (list Q) * list (list Q)) * (list (list Q) * list (list Q) * list (list Q))) : bool :=
+  match c with (ak, ps, xs, o, cf, cc, mu_h, mu_2h, es, x0, tol, ef, ec) =>
+    let a_st := match ak with Some k => a_st_constant [[k]] | None => a_st_diag end in
+    match step_sde_coupled a_st b_zero ps xs o cf cc mu_h mu_2h (map sde_event es) [x0] with
+    | None => false
+    | Some tms => sde_mats_eqb tol 1 (map fst tms) ef && sde_mats_eqb tol 1 (map snd tms) ec
+    end end.
+"""
+
+
+def _sde(res, rng, viol, groups):
+    """CouplingSDE (1-d StepModel driver, a = Constant / DiagX) at levels 1-3 through its public entry points: the level bookkeeping
+    (oracle), and one REAL coupled driver path per level recorded on its way into the scheme (fine increments and coupling uniforms at
+    coupling_state, times / jump / diffusion rows of the driver's path): the Coq model recomputes the coarse jumps with coupling_state,
+    the two diffusion parts from one Brownian increment, and the stacked Euler recursion; compared with the object's StochasticSDEPath"""
+    import importlib
+    from rpylib.process.coupling.couplingsde import CouplingSDE
+    from rpylib.montecarlo.path import StochasticJumpPath, MLMCPath
+    C16 = importlib.import_module("props.C16")
+    cases = []
+    thorough = res.tier == "thorough"
+    for ip in range(3 if not thorough else 12):
+        kind = "diag" if ip % 2 else "const"
+        try:
+            with warnings.catch_warnings():
+                warnings.simplefilter("ignore")
+                driver, mkgrid = C16.step_driver(rng, 1, infinite_variation=ip % 3 == 0)
+                cval = rng.choice([-1.5, -0.5, 0.5, 1.0, 2.0])
+                x0 = rng.randrange(2, 12) / 4
+                model = C16.make_model(driver, [x0], C16.make_a(kind, 1, 1, cval))
+                cp = CouplingSDE(model, mkgrid(), C16.sampling_method(1))
+                prod = C16.the_product()
+                cp.initialisation(prod)
+                pms = [MLMCPath(cp.fine_process.deterministic_path, False)]
+        except Exception as e:  # noqa
+            viol(f"CouplingSDE cannot be built: {type(e).__name__}", kind="sde", reason=str(e)[:200])
+            continue
+        nu = driver.levy_triplet.nu
+        dcp = cp.driver_coupling_process
+        prev_mu = float(np.ravel(cp.mc_drift_h)[0])
+        prev_cf = None
+        b_before = cp.fine_process.sde_drift
+        for level in (1, 2, 3):
+            ctx = dict(kind="sde", a=kind, c=cval, x0=x0, level=level)
+            try:
+                with warnings.catch_warnings():
+                    warnings.simplefilter("ignore")
+                    prev_axis = [float(x) for x in dcp.grid.axes[0]]
+                    cp.next_level(mc_paths=1, path_managers=pms, product=prod)
+                    mu_h, mu_2h = float(np.ravel(cp.mc_drift_h)[0]), float(np.ravel(cp.mc_drift_2h)[0])
+                    cf, cc = float(dcp.equivalent_diffusion_coefficient_fine), float(dcp.equivalent_diffusion_coefficient_coarse)
+                    xs = [float(x) for x in dcp.grid.axes[0]]
+                    o2 = dcp.grid.origin_coordinate.value
+                    res.count(("sde-level", ip, level), kind="CouplingSDE.next_level bookkeeping")
+                    if cp.level != level or dcp.level != level or mu_2h != prev_mu or (prev_cf is not None and cc != prev_cf) or xs[0::2] != prev_axis \
+                            or mu_h != float(np.ravel(dcp.fine_process.process_drift())[0]):
+                        viol("SDE coupling: the coarse component does not carry the previous level's driver drift / diffusion coefficient / grid",
+                             mu_2h=mu_2h, previous_mu_h=prev_mu, cc=cc, previous_cf=prev_cf, **ctx)
+                    prev_mu, prev_cf = mu_h, cf
+                    # ---- one real coupled driver path, recorded
+                    np.random.seed(rng.randrange(2 ** 31))
+                    dcp.__dict__.pop("simulate_one_path_with_coupling", None)
+                    dcp.pre_computation(1, prod)
+                    sim = dcp._path_coupling_simulation
+                    rec, last_u = [], [0.0]
+                    orig_cs, orig_u = sim.coupling_state, dcp.uniform.sample
+
+                    def u_rec(*a, **k):
+                        r = orig_u(*a, **k)
+                        last_u[0] = float(np.ravel(r)[0])
+                        return r
+
+                    def cs_rec(inc):
+                        last_u[0] = 0.0
+                        v = orig_cs(inc)
+                        rec.append((int(np.ravel(inc)[0]), last_u[0], float(np.ravel(v)[0])))
+                        return v
+                    dcp.uniform.sample, sim.coupling_state = u_rec, cs_rec
+                    try:
+                        pth = dcp.simulate_one_path_with_coupling()
+                    finally:
+                        dcp.uniform.sample = orig_u
+                        del sim.coupling_state
+                    keep = min(len(pth.jump_times), 14)
+                    pth = StochasticJumpPath(pth.jump_times[:keep], pth.diffusion_path[:, :keep], pth.jump_path[:, :keep])
+                    dcp.simulate_one_path_with_coupling = (lambda pth=pth: pth)
+                    sp = cp.simulate_one_path_with_coupling()
+                    dcp.__dict__.pop("simulate_one_path_with_coupling", None)
+            except Exception as e:  # noqa
+                viol(f"SDE coupling raises {type(e).__name__}", reason=str(e)[:200], **ctx)
+                break
+            times = [Fr(float(t)) for t in pth.jump_times]
+            jf, jc = [Fr(float(v)) for v in pth.jump_path[0]], [Fr(float(v)) for v in pth.jump_path[1]]
+            wf, wc = [Fr(float(v)) for v in pth.diffusion_path[0]], [Fr(float(v)) for v in pth.diffusion_path[1]]
+            events, it, ok = [], iter(rec), True
+            for k in range(keep - 1):
+                dfine, dcoarse = jf[k + 1] - jf[k], jc[k + 1] - jc[k]
+                sw = (wf[k + 1] - wf[k]) / Fr(cf) if cf else Fr(0)
+                near = lambda x, y: abs(x - y) <= Fr(1, 10 ** 9) * (1 + abs(y))      # noqa
+                if dfine == 0:
+                    if dcoarse != 0:
+                        viol("SDE coupling: the coarse driver jumps at a time where the fine driver does not", step=k, **ctx)
+                        ok = False
+                    events.append((times[k], times[k + 1] - times[k], None, Fr(0), sw))
+                    continue
+                inc, u, v = next(it, (None, 0.0, 0.0))
+                if inc is None or not near(dfine, Fr(xs[o2 + inc])) or not near(dcoarse, Fr(v)):
+                    viol("SDE coupling: the driver path is not the sequence of fine states / coupling_state values of its increments", step=k, **ctx)
+                    ok = False
+                    break
+                if (o2 + inc) % 2 == 0 and Fr(v) != Fr(xs[o2 + inc]) or (o2 + inc) % 2 == 1 and Fr(v) not in (Fr(xs[o2 + inc - 1]), Fr(xs[o2 + inc + 1])):
+                    viol("SDE coupling: a coarse driver jump is not the fine state (even) / an adjacent coarse state (odd)", step=k, increment=inc, **ctx)
+                    ok = False
+                if not near((wc[k + 1] - wc[k]) * Fr(cf), (wf[k + 1] - wf[k]) * Fr(cc)):
+                    viol("SDE coupling: the two diffusion parts are not the same Brownian increment times the two coefficients", step=k, **ctx)
+                    ok = False
+                events.append((times[k], times[k + 1] - times[k], inc, Fr(u), sw))
+            njump = sum(1 for e in events if e[2] is not None)
+            res.count(("sde-path", ip, level, keep, njump, rng.random()), nontrivial=njump > 0, kind=f"CouplingSDE path a={kind} level={level}")
+            res.bump("sde_events", f"level {level}: {'odd increment coupled' if any(e[2] is not None and e[2] % 2 for e in events) else 'no odd increment'}")
+            if not ok:
+                continue
+
+            def mat(arr):
+                return "[" + lst([qlit(float(v)) for v in np.ravel(arr)]) + "]"
+            exp = [", ".join(mat(np.asarray(a3, dtype=float)[comp]) for a3 in (sp.drift, sp.diffusion_path, sp.jump_path)) for comp in (0, 1)]
+            ev = lst([f"({qlit(t)}, {qlit(dt)}, {'None' if i is None else 'Some (' + zlit(i) + ')'}, {qlit(u)}, {qlit(sw)})" for t, dt, i, u, sw in events])
+            ak = "None" if kind == "diag" else f"(Some {qlit(cval)})"
+            cases.append(f"({ak}, {nu.coq()}, {lst([qlit(x) for x in xs])}, {natlit(o2)}, {qlit(cf)}, {qlit(cc)}, {qlit(mu_h)}, {qlit(mu_2h)}, {ev}, "
+                         f"{qlit(x0)}, {qlit(Fr(1, 10 ** 9))}, ({exp[0]}), ({exp[1]}))")
+        if cp.fine_process.sde_drift != b_before:
+            res.bump("sde_drift_object", "replaced between levels")
+    groups.append(("sde", "option Q * list (Q * Q * Q) * list Q * nat * Q * Q * Q * Q * list (Q * Q * option Z * Q * Q) * Q * Q "
+                          "* (list (list Q) * list (list Q) * list (list Q)) * (list (list Q) * list (list Q) * list (list Q))", "sde_case_check", cases))
+    _sde_libor_observation(res, rng, viol)
+
+
+def _sde_libor_observation(res, rng, viol):
+    """F-C03-4 (assessment; theorem C03_sde_libor_drift_not_of_level_refuted): the Libor sde drift of CouplingSDE keeps the zz of the level-0 h.
+    The telescoping identity is not affected (both components of every level use it: C03_sde_same_scheme); what differs is the level-(l-1)
+    process MarkovChainLevyLiborModel would build on the refined grid.  Recorded in the evidence as an observation, not a violation."""
+    import importlib
+    from rpylib.process.coupling.couplingsde import CouplingSDE
+    from rpylib.process.markovchain.markovchainsde import MarkovChainLevyLiborModel
+    from rpylib.model.levydrivensde.levylibormodel import LevyLiborModel
+    from rpylib.product.product import Product
+    from rpylib.product.payoff import Forward
+    from rpylib.product.underlying import Libors
+    from rpylib.montecarlo.path import MLMCPath
+    C16 = importlib.import_module("props.C16")
+    try:
+        with warnings.catch_warnings():
+            warnings.simplefilter("ignore")
+            driver, mkgrid = C16.step_driver(rng, 1, infinite_variation=True)
+            model = LevyLiborModel(np.array([0.03125, 0.0625]), [1.0, 1.5, 2.0], np.array([[0.5], [0.25]]), driver)
+            prod = Product(Libors(), Forward(1.0), maturity=1.25)
+            cp = CouplingSDE(model, mkgrid(), C16.sampling_method(1))
+            cp.initialisation(prod)
+            pms = [MLMCPath(cp.fine_process.deterministic_path, False)]
+            x = np.array([[0.03125], [0.0625]])
+            b0 = np.ravel(cp.fine_process.sde_drift(0.0, x)).tolist()
+            cp.next_level(mc_paths=1, path_managers=pms, product=prod)
+            level1 = MarkovChainLevyLiborModel(model=model, method=C16.sampling_method(1), grid=copy.deepcopy(cp.driver_coupling_process.grid))
+            level1.initialisation(prod)
+            cp.next_level(mc_paths=1, path_managers=pms, product=prod)
+            b2 = np.ravel(cp.fine_process.sde_drift(0.0, x)).tolist()
+            b1 = np.ravel(level1.sde_drift(0.0, x)).tolist()
+        res.count(("sde-libor-zz",), kind="Libor sde drift of CouplingSDE at level 2 vs the level-1 process")
+        if b2 != b0:
+            viol("SDE coupling: the sde drift used for both components changed between levels without the coarse one keeping the previous level's",
+                 kind="sde-libor", level0=b0, level2=b2)
+        res.bump("sde_libor_drift (F-C03-4 observation)", "level-0 zz kept: coarse component of level 2 differs from the level-1 process' sde drift"
+                 if b1 != b2 else "equal to the level-1 process' sde drift")
+    except Exception as e:  # noqa
+        viol(f"SDE coupling (Libor) raises {type(e).__name__}", kind="sde-libor", reason=str(e)[:200])
 
 
 def search(res):
